@@ -990,6 +990,11 @@ func c17Push(c *fw.Ctx, i int, ingest string, nTargets, refuseFirst, paramLen in
 	e.desc = fmt.Sprintf("push ingest=%s targets=%d target0-refuses-first=%d url-parameter-bytes=%d", ingest, nTargets, refuseFirst, paramLen)
 	c.Describe("%s", e.desc)
 	c.Cell("push/%s/targets=%d/refuse=%d/params=%d", ingest, nTargets, refuseFirst, paramLen)
+	if paramLen < 0 {
+		// a negative value asks for a publish name ("stream?params") of exactly that many bytes: buffer sizes of the
+		// command encoders are powers of two, names just below one are the interesting ones
+		paramLen = -paramLen - len(e.name) - 1
+	}
 	params := ""
 	if paramLen > 0 {
 		r := c.SubRng("params")
@@ -1391,7 +1396,7 @@ func init() {
 	for _, p := range []struct {
 		ing          string
 		nt, ref, par int
-	}{{"rtmp", 1, 0, 0}, {"rtmp", 3, 0, 10}, {"rtmp", 2, 1, 300}, {"rtmp", 1, 3, 0}, {"rtmp", 1, 0, 5000}, {"rtmp", 1, 0, 40000}, {"rtsp", 2, 0, 0}, {"rtsp", 1, 2, 0}} {
+	}{{"rtmp", 1, 0, 0}, {"rtmp", 3, 0, 10}, {"rtmp", 2, 1, 300}, {"rtmp", 1, 3, 0}, {"rtmp", 1, 0, 5000}, {"rtmp", 1, 0, 40000}, {"rtmp", 1, 0, -500}, {"rtmp", 2, 0, -1010}, {"rtmp", 1, 0, -2040}, {"rtsp", 2, 0, 0}, {"rtsp", 1, 2, 0}} {
 		p := p
 		cat = append(cat, sc{"push", func(c *fw.Ctx, i int) { c17Push(c, i, p.ing, p.nt, p.ref, p.par) }})
 	}
